@@ -289,14 +289,25 @@ def run_history(ctx, world, fp, ctors, history):
             from calmjs.parse.unparsers.es5 import pretty_print, minify_print
             text, which, kw = world.texts[op[1]], op[2], dict(op[3])
             ctx.hit('shortcut')
-            if which == 'pretty':
-                a = es5.pretty_print(text, **kw)
-                b = pretty_print(world.parse(text), **kw)
+            def outcome(call):
+                try:
+                    return call()
+                except FaultInjected:
+                    raise
+                except Exception as e:
+                    return 'raised %s: %s' % (type(e).__name__, str(e)[:80])
+            if which in ('pretty', 'minify'):
+                f, g = (es5.pretty_print, pretty_print) if which == 'pretty' else (es5.minify_print, minify_print)
+                a = outcome(lambda: f(text, **kw))
+                b = outcome(lambda: g(world.parse(text), **kw))
             else:
-                a = es5.minify_print(text, **kw)
-                b = minify_print(world.parse(text), **kw)
+                # the same options given by position, as the signatures of the explicit functions allow
+                pos = tuple(v for k, v in op[3])
+                f, g = (es5.pretty_print, pretty_print) if which == 'pretty_positional' else (es5.minify_print, minify_print)
+                a = outcome(lambda: f(text, *pos))
+                b = outcome(lambda: g(world.parse(text), *pos))
             if a != b:
-                viol.append(('C14:shortcut_differs:%s' % which, 'es5.%s_print(text, %r) differs from the explicit '
+                viol.append(('C14:shortcut_differs:%s' % which, 'es5.%s(text, %r) differs from the explicit '
                              'parse-then-print: %r vs %r' % (which, kw, a[:80], b[:80])))
         elif kind == 'str':
             from calmjs.parse.unparsers.es5 import pretty_print
@@ -352,7 +363,12 @@ def run(ctx):
         np_, nt = len(world.printers), len(world.trees)
         shortcut_kws = [('pretty', ()), ('pretty', (('indent_str', '\t'),)), ('minify', ()),
                         ('minify', (('obfuscate', True), ('drop_semi', True))),
-                        ('minify', (('obfuscate', True), ('obfuscate_globals', True), ('shadow_funcname', True)))]
+                        ('minify', (('obfuscate', True), ('obfuscate_globals', True), ('shadow_funcname', True))),
+                        ('pretty_positional', (('indent_str', '\t'),)), ('pretty_positional', (('indent_str', ''),)),
+                        ('minify_positional', (('obfuscate', True),)),
+                        ('minify_positional', (('obfuscate', False), ('obfuscate_globals', True))),
+                        ('minify_positional', (('obfuscate', True), ('obfuscate_globals', False), ('shadow_funcname', False),
+                                               ('drop_semi', True)))]
 
         def report(viol, history):
             seen = set()
